@@ -39,7 +39,9 @@ def cases(draw):
     tree = draw(fsmodel.trees())
     spec, _after = draw(fsmodel.change_specs(tree, min_leaves=2, max_leaves=7, allow_rm=True))
     # an earlier change that was done and undone again: the redo list is not empty when the composite change is attempted
-    return {"tree": tree, "spec": spec, "prior_undone": draw(st.booleans())}
+    return {"tree": tree, "spec": spec, "prior_undone": draw(st.booleans()),
+            # one more sub-change in the middle: a move INTO a folder that does not exist (an organically failing step)
+            "move_to_missing": draw(st.integers(0, 4)) == 0}
 
 
 def strategy(tier):
@@ -132,6 +134,12 @@ def _setup(case, phase, fs):
         project.do(prior)
         project.history.undo()
     changes = fsmodel.build_change(project, case["spec"], fsmodel.tree_bytes(case["tree"]))
+    if case.get("move_to_missing") and phase == "do":
+        from rope.base.change import MoveResource
+
+        with open(os.path.join(root, "zz_mv_src.txt"), "w") as fh:
+            fh.write("moved\n")
+        changes.changes.insert(min(1, len(changes.changes)), MoveResource(project.get_file("zz_mv_src.txt"), "zz_gone/deeper/x.txt"))
     if phase in ("undo", "redo"):
         project.do(changes)
     if phase == "redo":
